@@ -249,6 +249,13 @@ pub fn encodings_for(pd: &PlanDesc, tier: Tier) -> Vec<(String, Encoding)> {
         e.class_ids = (0..nclasses as u32).map(|x| x + off).collect();
         out.push(("class-ids-offset".into(), e));
     }
+    // "class ids are arbitrary": ids whose little-endian bytes (the first bytes of an uncompressed
+    // INST / PROP payload) look like a Zstandard frame, an LZ4 frame, a chunk name
+    for (lab, first) in [("zstd-magic", 0xfd2f_b528u32), ("lz4-magic", 0x184d_2204), ("chunk-name", u32::from_le_bytes(*b"PROP")), ("max", u32::MAX - nclasses as u32)] {
+        let mut e = base.clone();
+        e.class_ids = (0..nclasses as u32).map(|x| first.wrapping_add(x)).collect();
+        out.push((format!("class-ids-{}", lab), e));
+    }
     // referents
     let rperm: usize = (1..=n).product::<usize>().max(1);
     for k in 1..rperm {
@@ -290,6 +297,19 @@ pub fn encodings_for(pd: &PlanDesc, tier: Tier) -> Vec<(String, Encoding)> {
                 e.unknown_len = len;
                 let _ = ci;
                 out.push((format!("unknown-chunk:{:?}", c), e));
+            }
+        }
+    }
+    // the unknown chunk's payload is opaque: it may look like compressed data or like file structure
+    for kind in 1..=5u8 {
+        for k in [0, nchunks] {
+            for c in enc::COMPS.iter() {
+                let mut e = base.clone();
+                e.unknown_chunk_at = Some(k);
+                e.unknown_comp = *c;
+                e.unknown_len = 40;
+                e.unknown_kind = kind;
+                out.push((format!("unknown-chunk-payload-kind:{}", kind), e));
             }
         }
     }
@@ -538,7 +558,7 @@ pub fn check(run: &Run) -> Value {
         "doc_vectors_reproduced_by_spec_codec": vectors,
         "samples": total.samples.iter().map(|s| serde_json::from_str::<Value>(s).unwrap()).collect::<Vec<_>>(),
         "exhaustive": true,
-        "rule": "for every logical DOM of the reduced topology sweep (forests <= 3/4 nodes x class patterns over {unknown class with String/Int32/Float32/Ref/SharedString/Content, Part via serialized names size/Color3uint8/Anchored/Tags/AttributesSerialize, Folder}) the independent encoder emits the base encoding and, one degree of freedom at a time, every alternative the document allows: compression per chunk over {none, LZ4 literal-only, LZ4, zstd raw blocks, zstd} (all uniform assignments, every single-chunk deviation, thorough: double), every INST order, PROP orders (all permutations up to 5 chunks, else rotations/reversal/adjacent swaps), every class-id permutation and offsets {7,1000,2^31-1}, every referent permutation plus sparse/offset/large numberings, every PRNT order that keeps sibling order, META, an unknown chunk at every boundary, reversed columns, a PROP chunk cut after its name or with type ids {00,0f,11,23,ff} before/after the real ones, service object format; Int32-for-Int64 and Float32-for-Float64 over the full numeric alphabets (pairs). Each file is first read by the spec decoder (the two halves of the spec codec must agree) and then by rbx_binary::from_reader, whose DOM must equal the plan",
+        "rule": "for every logical DOM of the reduced topology sweep (forests <= 3/4 nodes x class patterns over {unknown class with String/Int32/Float32/Ref/SharedString/Content, Part via serialized names size/Color3uint8/Anchored/Tags/AttributesSerialize, Folder}) the independent encoder emits the base encoding and, one degree of freedom at a time, every alternative the document allows: compression per chunk over {none, LZ4 literal-only, LZ4, zstd raw blocks, zstd} (all uniform assignments, every single-chunk deviation, thorough: double), every INST order, PROP orders (all permutations up to 5 chunks, else rotations/reversal/adjacent swaps), every class-id permutation and offsets {7,1000,2^31-1}, every referent permutation plus sparse/offset/large numberings, every PRNT order that keeps sibling order, META, an unknown chunk at every boundary (every storage form; payloads that look like text, a Zstandard frame or its magic, an LZ4 frame, the END text, the file magic), class ids whose bytes look like compression magics or chunk names, reversed columns, a PROP chunk cut after its name or with type ids {00,0f,11,23,ff} before/after the real ones, service object format; Int32-for-Int64 and Float32-for-Float64 over the full numeric alphabets (pairs). Each file is first read by the spec decoder (the two halves of the spec codec must agree) and then by rbx_binary::from_reader, whose DOM must equal the plan",
     })
 }
 
